@@ -126,6 +126,12 @@ class Registry:
         ps = [tuple(x.strip() for x in p.split(":")) for p in params.split(",")]
         self.opaques[name] = (ps, text, ret)
 
+    def recfun(self, name, params, text, ret="real"):
+        """recursive spec function: `text` refers to itself as NAME_z; revealing it unfolds exactly one level per term
+        (NAME(x) == body with NAME_z inside, NAME(x) == NAME_z(x)), which avoids matching loops"""
+        self.opaque(name, params, text, ret)
+        self.opaque(name + "_z", params, None, ret)
+
     def pred(self, name, params, text, cls=None):
         self.preds.setdefault(name, []).append(Pred(name, params, text, cls))
 
